@@ -117,15 +117,20 @@ func genCSV(t *tape.Tape, o GenOpts) *World {
 		w.SetTag("csv.replace-double-quotes", "1")
 	}
 	w.Render = func(r LRec) string {
+		vals := r.Vals
+		if r.Short > 0 && len(vals)-r.Short >= 2 {
+			vals = vals[:len(vals)-r.Short] // a ragged row: fewer fields than declared columns
+		}
 		if replaceDQ {
-			return strings.Join(dqVals(r.Vals), delim)
+			return strings.Join(dqVals(vals), delim)
 		}
 		q := -1
 		if quoteEvery {
 			q = 0
 		}
-		return csvLine(r.Vals, delim, q)
+		return csvLine(vals, delim, q)
 	}
+	ragged := t.Chance("csv.ragged", 1, 3)
 	noFinalEOL := t.Chance("gen.noFinalEOL", 1, 4)
 	w.Sep = eol
 	if t.Chance("gen.blankLines", 1, 4) {
@@ -140,6 +145,9 @@ func genCSV(t *tape.Tape, o GenOpts) *World {
 	}
 	t.Repeat("recs", min, max, 4, 5, func(int) {
 		r := DrawRec(t, sh)
+		if ragged && t.Chance("csv.ragged.row", 1, 3) {
+			r.Short = 1 + t.Intn("csv.ragged.n", 3)
+		}
 		if spicy {
 			k := 2 % len(r.Vals)
 			if k != sh.IntIdx && k != 0 {
